@@ -7,6 +7,10 @@ Engine A over flat inputs.  Families:
                 matrices, a permutation)
   ipow-mutable  mutable elements with __imul__ (own matrix class, numpy.matrix, numpy.ndarray):
                 arguments left alone, second call on the same object agrees
+  fft-dtype     fft / ifft on every input dtype (bool, u/int8..64, float16..64, complex64/128) x
+                complex_dtype omitted / complex64 / complex128: precision and dtype of the result
+  poly-container  Polynomial data handed over as tuple / list / generator / iterator / map /
+                dict view / via general_polynomial(): same polynomial, alone and as an operand
   fft-history   every sequence of two (thorough: also three) fft calls over {complex64,
                 complex128, python list, int input} x {sign +1,-1} at one length, from freshly
                 initialised module state: results must not depend on earlier calls
@@ -75,6 +79,16 @@ FFT_HIST_LENGTHS = {"quick": (2, 3, 4, 6, 8, 12, 16),
                     "thorough": (2, 3, 4, 5, 6, 7, 8, 9, 10, 12, 15, 16, 17, 30, 64)}
 FFT_HIST_LEN = 2
 FFT_HIST3_LENGTHS = {"quick": (), "thorough": (4, 6, 12)}     # all sequences of three calls
+# input dtype x complex_dtype option x transform: the precision the result must have
+FFT_DTYPES = ("bool", "int8", "int16", "int32", "int64", "uint8", "uint16", "uint32", "uint64",
+              "float16", "float32", "float64", "complex64", "complex128")
+FFT_DTYPE_OPTIONS = (None, "complex64", "complex128")
+FFT_DTYPE_FNS = ("fft+", "fft-", "ifft")
+FFT_DTYPE_LENGTHS = {"quick": (1, 2, 3, 4, 6, 8, 12, 16),
+                     "thorough": (*range(1, 33), 49, 64)}
+# containers the (exponent, coefficient) pairs are handed to Polynomial(...) in
+POLY_CONTAINERS = ("tuple", "list", "genexpr", "iter", "map", "dict-items", "general_polynomial")
+POLY_CONTAINER_DEG = {"quick": 2, "thorough": 4}
 
 SORTUNIQ_MAX_LEN = {"quick": 4, "thorough": 5}
 SORTUNIQ_EXPS = (0, 1, 2)
@@ -339,6 +353,54 @@ def probe_truediv(dom, a, b):
         return [("wrong", f"P / Q returned {gt}, but ({gt})*Q = {gt * qb} != P "
                  f"(remainder {qa - gt * qb} dropped)")]
     return _result_vs_ref(t, gt, "P/Q")
+
+
+def _in_container(kind, a):
+    """The real Polynomial in x, with its data handed over in the given kind of iterable."""
+    from pymbolic.polynomial import Polynomial, general_polynomial
+    a = tuple(a)
+    if kind == "tuple":
+        return Polynomial(X(), a)
+    if kind == "list":
+        return Polynomial(X(), list(a))
+    if kind == "genexpr":
+        return Polynomial(X(), ((e, c) for e, c in a))
+    if kind == "iter":
+        return Polynomial(X(), iter(list(a)))
+    if kind == "map":
+        return Polynomial(X(), map(lambda t: (t[0], t[1]), a))
+    if kind == "dict-items":
+        return Polynomial(X(), dict(a).items())
+    assert kind == "general_polynomial"      # the library's own constructor (dense, generator)
+    deg = max((e for e, _ in a), default=0)
+    d = dict(a)
+    return general_polynomial(X(), [d.get(i, 0) for i in range(deg + 1)], deg)
+
+
+def probe_container(kind, a):
+    """A polynomial whose data arrives in a list / one-shot iterable / view must denote the same
+    polynomial as with a tuple -- on its own and as an operand of * + ** divmod."""
+    _tick(5)
+    qa = QPoly(a)
+    one_plus_x = QPoly(((0, 1), (1, 1)))
+    uses = (
+        ("itself", lambda p: p, qa),
+        ("P*P", lambda p: p * p, qa * qa),
+        ("P+(1+x)", lambda p: p + mk(((0, 1), (1, 1))), qa + one_plus_x),
+        ("P**2", lambda p: p ** 2, qa * qa),
+        ("divmod(P,1+x).r", lambda p: divmod(p, mk(((0, 1), (1, 1))))[1],
+         qa.divmod_field(one_plus_x)[1]),
+    )
+    for what, fn, expected in uses:
+        try:
+            res = fn(_in_container(kind, a))      # a fresh (possibly one-shot) container each time
+        except Exception as e:  # noqa: BLE001
+            return [("raises:" + excname(e), f"{what}: {e!r}")]
+        fails = _result_vs_ref(res, expected, f"{what} with data in a {kind}")
+        if fails:
+            return [f if not f[0].startswith("->") else ("wrong", f"{what}: evaluator") for f in
+                    fails]
+    return []
 
 
 def probe_neg(dom, a):
@@ -870,6 +932,43 @@ def probe_fft(n, vid):
     return fails
 
 
+def probe_fft_dtype(n, dtype, option, fn):
+    """fft / ifft on an input array of the given dtype, with complex_dtype given or left out.
+    Precision demanded: that of complex_dtype when given; otherwise that of a complex input and
+    double precision (the documented complex128 fallback) for every real / integer input, where
+    the result must also BE complex128 (n >= 2; for n == 1 the input is returned)."""
+    import numpy as np
+
+    from pymbolic.algorithm import fft, ifft
+    _tick()
+    dt = np.dtype(dtype)
+    if dt.kind == "c":
+        vals = [complex(((3 * j + 1) % 5) - 2, ((j * j) % 4) - 1) for j in range(n)]
+    elif dt.kind in "ub":
+        vals = [((j * j + 3 * j + 1) % 7) % (2 if dt.kind == "b" else 7) for j in range(n)]
+    else:
+        vals = [((j * j + 3 * j + 1) % 7) - 3 for j in range(n)]
+    x = np.array(vals, dtype=dt)
+    kw = {} if option is None else {"complex_dtype": np.dtype(option)}
+    sign = -1 if fn in ("fft-", "ifft") else 1
+    expected = ref.dft(vals, sign)
+    if fn == "ifft":
+        expected = [v / n for v in expected]
+    try:
+        got = ifft(x, **kw) if fn == "ifft" else fft(x, sign=sign, **kw)
+    except Exception as e:  # noqa: BLE001
+        return [("raises:" + excname(e), repr(e))]
+    working = option if option is not None else (dtype if dt.kind == "c" else "complex128")
+    tol = (FFT_TOL_SINGLE if working == "complex64" else FFT_TOL) \
+        * max(1.0, sum(abs(v) for v in vals))
+    d = _close(list(got), expected, tol)
+    if d:
+        return [("imprecise", f"working precision {working}: {d}")]
+    if option is None and n >= 2 and np.asarray(got).dtype != np.dtype(working):
+        return [("result-dtype", f"result dtype {np.asarray(got).dtype}, expected {working}")]
+    return []
+
+
 def _hist_vector(n, kind):
     if kind == "int":
         return [((j * j + 3 * j + 1) % 7) - 3 for j in range(n)]
@@ -1000,7 +1099,7 @@ def probe_ratop(op, p1, q1, p2, q2):
 def _is_label(name, kind):
     return (kind.startswith("unsupported-division:") or kind.startswith("unhashable")
             or kind == "diverges" or kind.startswith("wrong-big:")
-            or kind == "one-modified" or name in ("fft", "ratop", "fft-history"))
+            or kind == "one-modified" or name in ("fft", "ratop", "fft-history", "fft-dtype"))
 
 
 PROBES = {
@@ -1020,13 +1119,16 @@ PROBES = {
     "ipow-huge": (probe_ipow_huge, ("fixed", "fixed", "fixed")),
     "ipow-mutable": (probe_ipow_mutable, ("fixed", "scalar", "fixed")),
     "fft-history": (probe_fft_history, ("fixed",) * (1 + 3)),
+    "fft-dtype": (probe_fft_dtype, ("fixed", "fixed", "fixed", "fixed")),
+    "container": (probe_container, ("fixed", "poly")),
     "fft": (probe_fft, ("fixed", "fixed")),
     "quot": (probe_quot, ("scalar", "scalar")),
     "ratop": (probe_ratop, ("fixed", "fixed", "fixed", "fixed", "fixed")),
 }
 # label-only: which fixed arguments go into the signature
 LABEL_ARGS = {"euclid-poly": (0,), "field-divmod": (0,), "eval": (0,), "quot": (), "divmod": (0,), "truediv": (0,),
-              "fft": (0,), "ratop": (0,), "fft-history": (0,), "ipow-mutable": (0,)}
+              "fft": (0,), "ratop": (0,), "fft-history": (0,), "ipow-mutable": (0,),
+              "fft-dtype": (1, 2, 3)}
 
 
 def _decode(name, args):
@@ -1142,7 +1244,9 @@ class C19(Check):
             "2**53-2 and 10**30+7 on 8 elements of finite monoids; three mutable element types x "
             "every n up to the bound x default/fresh/reused neutral element, each called twice; "
             "every sequence of 2 (thorough: also 3) fft calls over 4 input kinds x 2 signs at each "
-            "history length, each from re-initialised module state; Euclid/gcd/lcm on "
+            "history length, each from re-initialised module state; fft+/fft-/ifft on 14 input dtypes "
+            "x 3 complex_dtype options at each dtype length; every small polynomial built from 7 "
+            "kinds of data container; Euclid/gcd/lcm on "
             "the full integer box and on every ordered pair of polynomials of degree <= 2 over "
             "{-1,0,1,2}; fft/ifft/sym_fft for EVERY length up to the bound on every unit vector "
             "(the transform is linear) and two dense vectors, both signs; the like-term merge on "
@@ -1183,6 +1287,13 @@ class C19(Check):
         "huge exponents: expected value is pow(v, n, p) for residues and x**(n mod order) by "
         "repeated multiplication otherwise; mutable elements: x must compare equal to its copy "
         "after every call and both calls must return the fold computed from the copy",
+        "fft on a real / integer / bool array without complex_dtype must work in and return "
+        "complex128 (the fallback the code documents); with complex_dtype given, or for complex "
+        "input, the result must be accurate to that type's precision (1e-5 / 1e-9 relative to "
+        "max(1, ||x||_1)); for length 1 the input itself is returned and no dtype is demanded",
+        "Polynomial(base, data) accepts any iterable of (exponent, coefficient) pairs (it stores "
+        "tuple(data); general_polynomial passes a generator): every container kind must yield "
+        "the same polynomial function",
         "an fft history starts from importlib.reload(pymbolic.algorithm), i.e. with every "
         "module-level memo table of that module empty (stands for a fresh process); the last call "
         "must return bit for bit what the same call returns as the first call after a reload; "
@@ -1203,6 +1314,8 @@ class C19(Check):
             ("ipow-huge", self.gen_ipow_huge),
             ("ipow-mutable", lambda: self.gen_ipow_mutable(tier)),
             ("fft-history", lambda: self.gen_fft_history(tier)),
+            ("fft-dtype", lambda: self.gen_fft_dtype(tier)),
+            ("poly-container", lambda: self.gen_container(tier)),
             ("euclid-int", lambda: self.gen_euclid_int(tier)),
             ("euclid-poly", self.gen_euclid_poly),
             ("fft", lambda: self.gen_fft(tier)),
@@ -1246,6 +1359,18 @@ class C19(Check):
             for onemode in ("default", "explicit", "one-reused"):
                 for n in range(IPOW_MUTABLE_MAX_N[tier] + 1):
                     yield ("probe", "ipow-mutable", kind, n, onemode)
+
+    def gen_fft_dtype(self, tier):
+        for n in FFT_DTYPE_LENGTHS[tier]:
+            for dtype in FFT_DTYPES:
+                for option in FFT_DTYPE_OPTIONS:
+                    for fn in FFT_DTYPE_FNS:
+                        yield ("probe", "fft-dtype", n, dtype, option, fn)
+
+    def gen_container(self, tier):
+        for p in all_polys(POLY_CONTAINER_DEG[tier], POLY_COEFFS[tier]):
+            for kind in POLY_CONTAINERS:
+                yield ("probe", "container", kind, enc_terms(p))
 
     def gen_fft_history(self, tier):
         alphabet = [(k, s) for k in FFT_HIST_KINDS for s in (1, -1)]
